@@ -935,12 +935,13 @@ func (s *session) startReadAndHandle() {
 			ctx.stat = statBadMessage.Copy(err)
 		}
 		s.graceCtxWaitGroup.Add(1)
-		if !Go(func() {
+		// when the goroutine pool is exhausted the message is handled by the
+		// reading goroutine itself: dropping it would leave a CALL unanswered
+		// and the call of a bound REPLY locked forever
+		TryGo(func() {
 			defer s.peer.putContext(ctx, true)
 			ctx.handle()
-		}) {
-			s.peer.putContext(ctx, true)
-		}
+		})
 	}
 }
 
